@@ -396,6 +396,7 @@ func TestC16(t *testing.T) {
 	c := vf.New(t, "C16", "enumerations: every source page 00-F1 x cartridge types {00,03,13,1B} (cartridge RAM pages on 03/13) x pseudo-random source contents; a restart at every cycle 0..175 of a running transfer for six page pairs; "+
 		"a source byte modified at every cycle 0..175 for bytes {0,1,80,158,159} in VRAM, cartridge RAM, WRAM and echo sources; plus rapid cases (random page, contents, up to 6 restarts/modifications, tail). "+
 		"All of FE00-FEFF is read at every cycle: FF in cycles 2..160 of a transfer, source bytes (either value if modified within 2 cycles of the slot) from cycle 162. "+
+		"Plus rapid 'cpu-polling' cases on the whole machine: a guest program starts the transfer at a drawn point of an LCD line (LCD on in 4 of 5) and polls FE00-FEFF up to 70 times inside it; OAM must equal the source afterwards. "+
 		"Every case is non-trivial (OAM starts as the complement of the source, so every copied byte is a change); distinct = hash of the case.")
 	defer c.Flush()
 	c.RunReplays()
@@ -501,6 +502,7 @@ func TestC16(t *testing.T) {
 		c.Exhaustive("one source byte (index 0,1,80,158,159) complemented at every cycle 0..175, sources 88 A5 C7 DF E0 F1")
 	})
 
+	defer c16PollCampaign(c)
 	c.Rapid("random", 12000, 300000, func(rt *rapid.T) {
 		cas := c16GenCase(rt)
 		class, feats := c16Analyse(cas)
@@ -597,4 +599,100 @@ func c16GenCase(rt *rapid.T) c16Case {
 		}
 	}
 	return cas
+}
+
+// ---------------------------------------------------------------------------
+// A transfer started by a guest program on the whole machine, LCD on, while the
+// CPU keeps polling OAM: the copy must still be exact.
+
+type c16Poll struct {
+	Page  uint8  `json:"page"`  // C0-DF: the source is work RAM
+	Seed  uint16 `json:"seed"`  // source contents
+	Nops  int    `json:"nops"`  // NOPs before the transfer is started: moves it across the LCD line
+	Polls int    `json:"polls"` // LD A,(HL) executed right after the start (2 cycles each, at most 70: all inside the transfer)
+	HL    uint16 `json:"hl"`    // polled address, FE00-FEFF
+	LCD   bool   `json:"lcd"`
+}
+
+func c16RunPoll(c c16Poll) (sig string, err error) {
+	defer vf.Recover(&sig, &err)
+	if c.Page < 0xc0 || c.Page > 0xdf || c.Polls < 0 || c.Polls > 70 || c.Nops < 0 || c.Nops > 400 || c.HL < 0xfe00 || c.HL > 0xfeff {
+		return "invalid-case", fmt.Errorf("case outside the domain")
+	}
+	rom := machine.MakeROM(0, 0, 0)
+	code := []byte{0xc3, 0x50, 0x01}
+	copy(rom[0x100:], code)
+	prog := []byte{0x21, byte(c.HL), byte(c.HL >> 8)}
+	for i := 0; i < c.Nops; i++ {
+		prog = append(prog, 0x00)
+	}
+	prog = append(prog, 0x3e, c.Page, 0xe0, 0x46)
+	for i := 0; i < c.Polls; i++ {
+		prog = append(prog, 0x7e)
+	}
+	prog = append(prog, 0x18, 0xfe)
+	copy(rom[0x150:], prog)
+	m := machine.New(rom, nil, false)
+	m.I.Disable()
+	m.Mp.Write(0xffff, 0)
+	if !c.LCD {
+		m.Mp.Write(0xff40, 0x11)
+	}
+	var src [160]uint8
+	for i := range src {
+		src[i] = c16Pattern(c.Seed, i)
+		m.Mp.Write(uint16(c.Page)<<8+uint16(i), src[i])
+	}
+	spin := uint16(0x150 + len(prog) - 2)
+	for i := 0; i < 4+3+c.Nops+5+2*c.Polls+200; i++ {
+		m.Cycle()
+	}
+	if pc := m.CPU.VerifGet().PC; pc != spin && pc != spin+1 && pc != spin+2 {
+		return "", nil // the CPU is not where the program ends (C01/C02's subject): nothing to judge
+	}
+	// look at OAM from outside mode 2, where a read has no side effect
+	for i := 0; i < 200 && m.Mp.Read(0xff40)&0x80 != 0 && m.Mp.Read(0xff41)&3 == 2; i++ {
+		m.Cycle()
+	}
+	bad, first := 0, -1
+	for i := range src {
+		if m.Mp.Read(0xfe00+uint16(i)) != src[i] {
+			bad++
+			if first < 0 {
+				first = i
+			}
+		}
+	}
+	if bad > 0 {
+		return "dma-copy-disturbed-by-cpu-polling", fmt.Errorf("transfer from %02x00 started by a guest program after %d NOPs (LCD on=%v) with %d reads of %04x during the transfer: %d OAM byte(s) differ from the source afterwards, first OAM[%d] = %02x, source %02x",
+			c.Page, c.Nops, c.LCD, c.Polls, c.HL, bad, first, m.Mp.Read(0xfe00+uint16(first)), src[first])
+	}
+	return "", nil
+}
+
+func init() {
+	vf.RegisterReplay("C16/poll", func(raw json.RawMessage) (string, error) {
+		var c c16Poll
+		if err := json.Unmarshal(raw, &c); err != nil {
+			return "", err
+		}
+		return c16RunPoll(c)
+	})
+}
+
+// TestC16 calls this after its own campaigns.
+func c16PollCampaign(c *vf.Collector) {
+	c.Rapid("cpu-polling", 3200, 100000, func(rt *rapid.T) {
+		cas := c16Poll{Page: uint8(rapid.IntRange(0xc0, 0xdf).Draw(rt, "page")), Seed: rapid.Uint16().Draw(rt, "seed"), Nops: rapid.IntRange(0, 240).Draw(rt, "nops"),
+			Polls: rapid.IntRange(0, 70).Draw(rt, "polls"), HL: uint16(rapid.IntRange(0xfe00, 0xfeff).Draw(rt, "hl")), LCD: rapid.IntRange(0, 4).Draw(rt, "lcd") != 0}
+		class := "cpu-polling-lcd-off"
+		if cas.LCD {
+			class = "cpu-polling-lcd-on"
+		}
+		c.Case(class, vf.Hash(cas), cas.Polls > 0, func() interface{} { return cas })
+		sig, err := c16RunPoll(cas)
+		if err != nil && !c.Fail("poll", sig, err.Error(), cas) {
+			rt.Fatalf("%v", err)
+		}
+	})
 }
